@@ -52,6 +52,7 @@ theorem order_as_modelled :
     Token.resolveCallOrder = ["missing_check", "open_call", "pairing_check", "read_schema", "read_schema",
       "deserialize_call_state"] ∧
     Token.cacheGetExpires = true ∧ Token.cacheGetRefreshes = false ∧ Token.cacheAgesFromToken = true ∧
+    Token.normalizeKeyShape = true ∧ Token.keyLen = 32 ∧
     Token.ttlShapeRecognised = true ∧ Token.b64Validate = true ∧ Token.headerLen = Token.lenFmtWidth ∧
     Token.timestampLen = Token.tsFmtWidth ∧ Token.cursorSegments = 1 ∧ Token.callSegments = 5 ∧
     Token.minCursorPlaintextLen = Token.timestampLen + Token.callIdLen + Token.headerLen * Token.cursorSegments ∧
